@@ -108,10 +108,16 @@ func (l *ltBroadcast) buildPendBlock(pd *pendBlock) bool {
 
 func (l *ltBroadcast) addLtBlock(ltBlock *types.LightBlock, receiveFrom, publisher peer.ID) {
 
+	// 轻区块数据来自其他节点, 交易数量需要和短哈希列表一致且不超过区块交易数量限制, 否则直接丢弃
+	txCount := ltBlock.GetHeader().GetTxCount()
+	if txCount < 1 || txCount > types.MaxTxsPerBlock || txCount != int64(len(ltBlock.GetSTxHashes())) {
+		log.Error("addLtBlock", "height", ltBlock.GetHeader().GetHeight(), "txCount", txCount,
+			"sTxHashCount", len(ltBlock.GetSTxHashes()), "from", receiveFrom.String(), "err", "invalid light block")
+		return
+	}
 	//组装block
 	block := &types.Block{}
 	block.SetHeader(ltBlock.GetHeader())
-	txCount := ltBlock.GetHeader().GetTxCount()
 	block.Txs = make([]*types.Transaction, txCount)
 	//add miner tx
 	block.Txs[0] = ltBlock.MinerTx
